@@ -273,13 +273,22 @@ def v_jobs(ck, n):
     T = int(rs.randint(3, 13))
     delta = float([0.0, 0.5, 1e-3, 3.0][rs.randint(4)]) if alg in ("S_ADA", "RFD_SON") else float([0.5, 1e-3, 3.0][rs.randint(3)])
     lr = float([0.25, 1.0, 0.1, 3.0][rs.randint(4)])
-    kind = ["dense", "lowrank", "scaled", "repeated"][i // 4 % 4]
+    kind = ["dense", "lowrank", "scaled", "repeated", "disparate"][i // 4 % 5]
     G = rs.standard_normal((T, d))
+    if kind == "disparate":        # lossless history whose directions live on very different scales
+      d = max(d, 4); k = max(k, 3); k = min(k, d)
+      r = k - 1
+      basis = orth(rs, d)[:r]
+      sc = 10.0 ** rs.uniform(-3, 3, size=r)
+      G = (rs.standard_normal((T, r)) * sc[None, :]) @ basis
+      if delta == 0.0 or delta == 3.0:
+        delta = 1e-3
+    
     if kind == "lowrank":          # history of rank < sketch size: nothing may escape
       r = max(1, k - 1 - int(rs.randint(0, 2)))
       basis = rs.standard_normal((r, d))
       G = rs.standard_normal((T, r)) @ basis
-    elif kind == "scaled":
+    if kind == "scaled":
       G = G * (10.0 ** rs.uniform(-3, 3, size=(T, 1)))
     elif kind == "repeated":
       G[1::2] = G[0] * rs.standard_normal((len(G[1::2]), 1))
@@ -292,17 +301,19 @@ def v_trace(job, r):
   """Measure the bracket / alpha law / last row on the recorded states; integers only."""
   alg, k, delta, lr = job["alg"], job["k"], job["delta"], job["lr"]
   f2 = {"S_ADA": 2, "RFD_SON": 1}.get(alg, 0)
-  cfg = {"alg": alg, "k": k, "fp": FP, "tolfp": int(VTOL * FP), "f2": f2}
+  cfg = {"alg": alg, "k": k, "fp": FP, "tolfp": int(VTOL * FP), "f2": f2, "dpos": bool(delta > 0)}
   if r["error"]:
     return {"cfg": cfg, "events": [{"err": r["error"]["type"], "tc": 0, "lastzero": False, "finite": False,
-                                    "lo": 0, "hi": 0, "aerr": 0, "rank": 0, "lossless": False, "escfp": 0}]}
+                                    "lo": 0, "hi": 0, "aerr": 0, "rank": 0, "lossless": False, "escfp": 0,
+                                    "fmfp": 0}]}
   G = np.asarray(job["grads"])
   d = G.shape[1]
   C = np.zeros((d, d))
   Pp, ep = np.zeros((k, d)), np.zeros(k)
   alpha_p, esc = delta, 0.0
   ev = []
-  raw = {"lo": 0.0, "hi": 0.0, "aerr": 0.0}
+  raw = {"lo": 0.0, "hi": 0.0, "aerr": 0.0, "fm": 0.0}
+  wfm = np.zeros(d)       # exact full-matrix AdaGrad on the same history (S_ADA, delta > 0, while lossless)
   for s, rl in enumerate(r["steps"]):
     t = s + 1
     fac = {"RFD_SON": (t * lr) ** -0.5, "FD_SON": (math.sqrt(t) * lr) ** -0.5}.get(alg, 1.0)
@@ -326,15 +337,22 @@ def v_trace(job, r):
       rank = int(np.sum(e ** 2 > 1e-12 * max(float(np.max(e ** 2)), 1e-300)))
       lossless = bool(np.linalg.matrix_rank(G[:t] * 1.0, tol=1e-9 * max(1e-300, float(np.max(np.abs(G[:t]))))) <= k - 1)
       escrel = esc / scale
-      raw = {"lo": max(raw["lo"], -lo), "hi": max(raw["hi"], -hi), "aerr": max(raw["aerr"], aerr)}
+      fm = 0.0
+      if alg == "S_ADA" and delta > 0 and lossless:
+        evl, V = np.linalg.eigh(delta * np.eye(d) + C)
+        wfm = wfm - lr * (V @ ((V.T @ G[s]) / np.sqrt(evl)))
+        fm = float(np.max(np.abs(np.asarray(rl["w"]) - wfm)) / max(float(np.max(np.abs(wfm))), 1e-300))
+      raw = {"lo": max(raw["lo"], -lo), "hi": max(raw["hi"], -hi), "aerr": max(raw["aerr"], aerr),
+             "fm": max(raw["fm"], fm)}
     else:
       lo = hi = -1.0
-      aerr, rank, lossless, escrel = 1.0, 0, False, 0.0
+      aerr, rank, lossless, escrel, fm = 1.0, 0, False, 0.0, 0.0
     clip = lambda x: int(max(-2 * FP, min(2 * FP, x)))
     ev.append({"err": "none", "tc": int(rl["t"]), "lastzero": bool(e[-1] == 0.0), "finite": finite,
                "lo": clip(math.floor(lo * FP)), "hi": clip(math.floor(hi * FP)),     # margins rounded down
                "aerr": clip(math.ceil(aerr * FP)),                                     # residual rounded up
-               "rank": rank, "lossless": lossless, "escfp": clip(math.ceil(escrel * FP))})
+               "rank": rank, "lossless": lossless, "escfp": clip(math.ceil(escrel * FP)),
+               "fmfp": clip(math.ceil(fm * FP))})
     Pp, ep, alpha_p = P, e, rl["alpha"]
   return {"cfg": cfg, "events": ev, "raw": raw}
 
@@ -436,7 +454,7 @@ def run(ck):
   vres = core.run_workers(WORKER, [{k: v for k, v in j.items() if k != "kind"} for j in vj], x64=True, work=ck.work)
   traces = [v_trace(j, r) for j, r in zip(vj, vres)]
   verdicts = ck.validate("OCO_Trace", "OCO_Trace", [{"cfg": t["cfg"], "events": t["events"]} for t in traces])
-  wl = wh = wa = 0.0
+  wl = wh = wa = wf = 0.0
   nloss = 0
   for j, t, v in zip(vj, traces, verdicts):
     ck.count(1, key=["V", j["alg"], j["k"], j["delta"], j["lr"], j["kind"], j["grads"][0][:2]])
@@ -445,6 +463,7 @@ def run(ck):
         nloss += e["lossless"]
     if v["accepted"] and "raw" in t:
       wl, wh, wa = max(wl, t["raw"]["lo"]), max(wh, t["raw"]["hi"]), max(wa, t["raw"]["aerr"])
+      wf = max(wf, t["raw"]["fm"])
     if v["accepted"]:
       ck.traces_ok(1)
     else:
@@ -456,6 +475,7 @@ def run(ck):
   ck.calib("bracket_lower_margin_violation", wl, VTOL)
   ck.calib("bracket_upper_margin_violation", wh, VTOL)
   ck.calib("alpha_law_residual", wa, VTOL)
+  ck.calib("lossless_sadagrad_vs_full_matrix_adagrad", wf, VTOL)
   ck.cov["dense_lossless_steps"] = nloss
   if nloss == 0 and not ck.violations:
     raise core.MachineryError("vacuous V leg: no lossless step in the dense histories")
@@ -463,10 +483,10 @@ def run(ck):
   # binding self-tests (V): a synthetic well-formed trace is accepted, each corrupted field is rejected
   def ev(tc, **kw):
     e = {"err": "none", "tc": tc, "lastzero": True, "finite": True, "lo": -1, "hi": -1, "aerr": 1, "rank": 1,
-         "lossless": False, "escfp": 5 * FP // 10}
+         "lossless": False, "escfp": 5 * FP // 10, "fmfp": 0}
     e.update(kw)
     return e
-  base = {"cfg": {"alg": "S_ADA", "k": 3, "fp": FP, "tolfp": int(VTOL * FP), "f2": 2},
+  base = {"cfg": {"alg": "S_ADA", "k": 3, "fp": FP, "tolfp": int(VTOL * FP), "f2": 2, "dpos": True},
           "events": [ev(1, lossless=True, escfp=0), ev(2), ev(3, rank=2)]}
   def mod(i, **kw):
     t = copy.deepcopy(base)
@@ -477,6 +497,7 @@ def run(ck):
   synth[0] = copy.deepcopy(base)
   wrongf = copy.deepcopy(base); wrongf["cfg"]["f2"] = 1
   synth.append(wrongf)
+  synth.append(mod(0, fmfp=int(1e-3 * FP)))
   sub = core.Check(ck.pid, ck.level, ck.tier, ck.seed); sub.work = ck.work
   vs = sub.validate("OCO_Trace", "OCO_Trace", synth)
   ck.selftest("V: a well-formed synthetic trace is accepted", vs[0]["accepted"])
@@ -489,6 +510,8 @@ def run(ck):
   ck.selftest("V: sketch rank = sketch size is rejected", vs[7]["verdict"] == "rank_bound")
   ck.selftest("V: a trace claiming another alpha factor than the spec's is rejected",
               vs[8]["verdict"] == "alpha_factor_of_trace_disagrees_with_spec")
+  ck.selftest("V: a lossless S-AdaGrad iterate 1e-3 away from full-matrix AdaGrad is rejected",
+              vs[9]["verdict"] == "lossless_not_full_matrix_adagrad")
   ck.assume("ADA_FD and FD_SON are exercised with delta > 0 only: they keep alpha = delta for ever; with delta = 0 "
             "ADA_FD's d = e/(alpha+e) is 0/0 in the always-zero last sketch row and the iterate is NaN from the "
             "first step (observed), an input outside the algorithm's definition")
